@@ -305,9 +305,51 @@ def display_paras(cell, rng):
         return [payload if isinstance(payload, str) else ("TRUE" if payload else "FALSE")]
     return []
 
+# elements that may hold the rows of a table (ODF 1.2 part 1, 9.1.2: table:table-header-rows,
+# table:table-rows, table:table-row-group — the last one nests) and elements beside them
+ROW_HOLDERS = ["table:table-header-rows", "table:table-rows", "table:table-row-group"]
+BESIDE = ["table:table-columns", "table:table-column-group", "table:shapes", "office:forms",
+          "table:table-source", "calcext:conditional-formats"]
+
+def wrap_rows(rowtoks, rng):
+    """rowtoks: one token list per row element; returns the token list of the table content with
+    some runs of rows put into row holders (row groups nested up to 3 deep), neighbours and
+    ignorable text in between — every arrangement denotes the same rows"""
+    if rng.random() < 0.55:
+        return [t for r in rowtoks for t in r]
+    def build(rows, depth):
+        out, i = [], 0
+        while i < len(rows):
+            r = rng.random()
+            if r < 0.35 and len(rows) - i >= 1:
+                k = rng.randrange(1, min(4, len(rows) - i) + 1)
+                name = "table:table-row-group" if depth > 0 or rng.random() < 0.6 else rng.choice(ROW_HOLDERS[:2])
+                inner = build(rows[i:i + k], depth + 1) if (name == "table:table-row-group" and depth < 3) \
+                    else [t for x in rows[i:i + k] for t in x]
+                out += ["G" + hx(name)] + inner + ["g" + hx(name)]
+                i += k
+            else:
+                if r > 0.9:
+                    out.append("J")
+                out += rows[i]
+                i += 1
+        return out
+    toks = build(rowtoks, 0)
+    if rng.random() < 0.3:
+        b = rng.choice(BESIDE)
+        toks = ["G" + hx(b), "J", "g" + hx(b)] + toks
+    if rng.random() < 0.2:
+        b = rng.choice(BESIDE)
+        toks = toks + ["G" + hx(b), "g" + hx(b)]
+    return toks
+
 def desc_of(enc, rng):
-    toks = []
+    return " ".join(wrap_rows(row_tokens(enc, rng), rng))
+
+def row_tokens(enc, rng):
+    rows = []
     for rowrep, elems in enc:
+        toks = []
         ra = []
         if rowrep != 1 or rng.random() < 0.1:
             ra.append(("table:number-rows-repeated", str(rowrep)))
@@ -321,7 +363,8 @@ def desc_of(enc, rng):
             for p in display_paras(cell, rng):
                 t += "~" + hx(p)
             toks.append(t)
-    return " ".join(toks)
+        rows.append(toks)
+    return rows
 
 def esc_attr(s):
     return s.replace("&", "&amp;").replace("<", "&lt;").replace(">", "&gt;").replace('"', "&quot;")
@@ -354,10 +397,16 @@ def xml_of_desc(desc):
     toks = [t for t in desc.split(" ") if t]
     nrows = sum(1 for t in toks if t[0] == "R")
     header = flavour % 5 == 0 and nrows >= 2
+    header = header and not any(t[0] in "GgJ" for t in toks)
     open_row = False
     rowno = 0
     for t in toks:
-        if t[0] == "R":
+        if t[0] in "GgJ":
+            if open_row:
+                out.append("</table:table-row>")
+                open_row = False
+            out.append("<%s>" % unhx(t[1:]) if t[0] == "G" else "</%s>" % unhx(t[1:]) if t[0] == "g" else "\n  <!-- x -->")
+        elif t[0] == "R":
             if open_row:
                 out.append("</table:table-row>")
                 if header and rowno == 1:
